@@ -357,7 +357,7 @@ Proof.
   - cbn [fst]. peel tstab_set_running. peel tstab_park. destruct inc; [apply tstab_upd_task, keeps_held|apply tstab_refl].
   - destruct k as [| |c].
     + apply tstab_ret.
-    + destruct inc; [apply tstab_ret|by_eq].
+    + destruct inc; [apply tstab_ret|]. destruct (ckif_spins _ _ _); [by_eq|apply tstab_ret].
     + pose proof (tstab_scope_exit s c t inc) as H. destruct (scope_exit s c t inc) as [s1 x]. cbn [fst] in H.
       destruct x; peel_ret; exact H.
   - peel_ret. by_eq.
